@@ -868,43 +868,11 @@ def table_rows(repo: Repo, mod: Module, it: ast.expr, hidden: set[str]) -> Optio
     return None
 
 
-def class_arms(repo: Repo, mod: Module, fn: ast.AST, var: str) -> Iterator[tuple[str, list[ast.AST], ast.If]]:
-    """(class name, code, the if statement) for every class C such that fn runs `code` when isinstance(var, C) holds:
-    * `if isinstance(var, C):` / `if isinstance(var, (C, D)):` - the code is the arm (and what it calls in this module);
-    * `for K, F, .. in TABLE: if isinstance(var, K): ..F(var)..` over a constant table (table_rows) - one arm per row, the
-      loop names standing for the row's entries: the class is the row's entry for K, the code is the arm and, for the
-      names of the loop that the arm calls, the functions those entries denote."""
-    owner = class_of_function(mod, fn)
-    hidden = local_names(fn)
-    for n in ast.walk(fn):
-        if not (isinstance(n, ast.If) and isinstance(n.test, ast.Call) and norm(n.test.func) == "isinstance" and len(n.test.args) == 2 and norm(n.test.args[0]) == var):
-            continue
-        k = n.test.args[1]
-        loop = None
-        if isinstance(k, ast.Name) and k.id in hidden:
-            # the class is a loop variable: find the for statement that binds it
-            for p in mod.parents(n):
-                if isinstance(p, (ast.For, ast.AsyncFor)) and k.id in bound_in(p.target):
-                    loop = p
-                    break
-                if p is fn:
-                    break
-        if loop is None:
-            classes = k.elts if isinstance(k, ast.Tuple) else [k]
-            for c in classes:
-                yield norm(c), reached_code(mod, list(n.body), owner), n
-            continue
-        rows = table_rows(repo, mod, loop.iter, hidden)
-        if rows is None:
-            raise AnalysisError("%s: the classes that `%s` is tested against come from `%s`, which is not a constant table" % (getattr(fn, "name", "?"), var, norm(loop.iter)[:60]))
-        tg = list(loop.target.elts) if isinstance(loop.target, (ast.Tuple, ast.List)) else [loop.target]
-        for row in rows:
-            if len(row) != len(tg) or not all(isinstance(t, ast.Name) for t in tg):
-                raise AnalysisError("%s: a row of the table `%s` does not match the loop target `%s`" % (getattr(fn, "name", "?"), norm(loop.iter)[:40], norm(loop.target)))
-            env = {t.id: r for t, r in zip(tg, row)}  # type: ignore[attr-defined]
-            classes = env[k.id].elts if isinstance(env[k.id], ast.Tuple) else [env[k.id]]  # type: ignore[attr-defined]
-            for c in classes:
-                yield norm(c), reached_code(mod, list(n.body), owner, env), n
+def class_arms(repo: Repo, mod: Module, fn: ast.AST, var: str) -> Iterator[tuple[str, list[ast.AST], "Arm"]]:
+    """(class name, code, the arm) for every class C such that fn runs `code` when isinstance(var, C) holds (dispatch_arms,
+    inside fn): the code is the arm and what it calls in this module; the arm's .body are its statements."""
+    for arm in dispatch_arms(repo, mod, fn, var):
+        yield arm.cls, arm_code(mod, arm), arm
 
 
 def bind_args(callee: ast.AST, call: ast.Call, bound: bool) -> Optional[dict[str, ast.expr]]:
@@ -1073,3 +1041,271 @@ def is_emptiness_test(leaf: ast.expr, negated: bool, names: set[str]) -> bool:
         if is_len(b) and zero(a):
             return isinstance(op, (ast.NotEq, ast.Lt) if negated else ast.Eq)
     return False
+
+
+# =====================================================================================================================
+# helpers of the rules restated on the second wave of preserving variants (DESIGN §14): the ways in which a pass of a
+# loop goes by a statement, whatever the spelling (continue under a test / the statement under the opposite test)
+
+
+class SkipWay:
+    """One way in which a pass of a loop does not run a given statement of its body.  `conds`: [(test, negated)], the branch
+    conditions that hold on that way; `leaves`: [(leaf, negated)], conjuncts that hold on it - one alternative of the
+    disjunctive normal form of the conditions (`if A or B: continue` is two ways, one on which A holds and one on which B
+    holds; negations are pushed inwards); `where`: the continue / break taken, or the `if` whose other branch is taken."""
+
+    def __init__(self, where: ast.AST, conds: list[tuple[ast.expr, bool]], leaves: list[tuple[ast.expr, bool]]):
+        self.where = where
+        self.conds = conds
+        self.leaves = leaves
+
+    def text(self) -> str:
+        return " and ".join(("not (%s)" % norm(t)) if ng else norm(t) for t, ng in self.conds)
+
+
+def dnf(test: ast.expr, negated: bool = False, limit: int = 32) -> Optional[list[list[tuple[ast.expr, bool]]]]:
+    """`test` (or `not test`) as a disjunction of conjunctions of (leaf, leaf is negated); None when it has more than
+    `limit` alternatives"""
+    if isinstance(test, ast.UnaryOp) and isinstance(test.op, ast.Not):
+        return dnf(test.operand, not negated, limit)
+    if isinstance(test, ast.BoolOp):
+        parts = [dnf(v, negated, limit) for v in test.values]
+        if any(p is None for p in parts):
+            return None
+        if isinstance(test.op, ast.Or) != negated:  # a disjunction
+            out = [alt for p in parts for alt in p]  # type: ignore[union-attr]
+        else:
+            out = [[]]
+            for p in parts:
+                out = [a + b for a in out for b in p]  # type: ignore[union-attr]
+                if len(out) > limit:
+                    return None
+        return out if len(out) <= limit else None
+    return [[(test, negated)]]
+
+
+def _ways(where: ast.AST, conds: list[tuple[ast.expr, bool]]) -> list[SkipWay]:
+    alts: list[list[tuple[ast.expr, bool]]] = [[]]
+    for t, ng in conds:
+        d = dnf(t, ng)
+        if d is None:
+            continue  # too many alternatives: nothing is taken as known from this condition
+        alts = [a + b for a in alts for b in d]
+        if len(alts) > 64:
+            alts = [[]]
+            break
+    return [SkipWay(where, conds, a) for a in alts]
+
+
+def _branch_path(mod: Module, node: ast.AST, stop: ast.AST) -> list[tuple[ast.If, bool]]:
+    """the if statements between node and stop, innermost first, with: node sits in the else branch"""
+    out = []
+    child = node
+    for p in mod.parents(node):
+        if p is stop:
+            break
+        if isinstance(p, ast.If):
+            if any(child is x for x in p.body):
+                out.append((p, False))
+            elif any(child is x for x in p.orelse):
+                out.append((p, True))
+        child = p
+    return out
+
+
+def skip_ways(mod: Module, node: ast.AST, loop: ast.AST, fn: ast.AST, jumps: tuple = (ast.Continue,)) -> list[SkipWay]:
+    """The ways in which one pass of `loop` does not run `node` (a statement or call in the loop's body, not in a loop nested
+    in it), as far as `if` statements decide it:
+    * a jump of this loop (continue; `jumps` says which kinds) is taken - under the branch conditions that lead to it;
+    * an `if` around node goes the other way - under the negation of its branch condition and the branch conditions of the
+      ifs further out.
+    `if A: continue` in front of node and `if not A: <node>` give the same leaves."""
+    ways = []
+    for s in ast.walk(loop):
+        if isinstance(s, jumps) and innermost_loop(mod, s, fn) is loop:
+            ways += _ways(s, [(i.test, neg) for i, neg in _branch_path(mod, s, loop)])
+    path = _branch_path(mod, node, loop)
+    for k, (i, neg) in enumerate(path):
+        ways += _ways(i, [(i.test, not neg)] + [(j.test, ng) for j, ng in path[k + 1:]])
+    return ways
+
+
+def empty_record_leaves(way: SkipWay, variant: set[str], feeding: set[str]) -> list[ast.expr]:
+    """the conjuncts of the way that say `the record of this pass is empty`: a comparison of something computed in the loop
+    (`variant`: the names bound in it) with '' / b'' that holds as an equality, or an emptiness test (is_emptiness_test: not n,
+    len(n) == 0, n == [] ...) of a name bound in the loop from which the row is computed (`feeding`)"""
+    out = []
+    for leaf, ng in way.leaves:
+        if isinstance(leaf, ast.Compare) and len(leaf.ops) == 1 and isinstance(leaf.ops[0], (ast.Eq, ast.NotEq)):
+            sides = [leaf.left, leaf.comparators[0]]
+            if any(isinstance(x, ast.Constant) and x.value in ("", b"") for x in sides) and any(names_in(x) & variant for x in sides) \
+                    and isinstance(leaf.ops[0], ast.Eq) != ng:
+                out.append(leaf)
+                continue
+        if is_emptiness_test(leaf, ng, variant & feeding):
+            out.append(leaf)
+    return out
+
+
+# ------------------------------------------------------------------------ dispatch on a term's class, through the module
+
+
+def close(e: ast.expr, env: dict[str, ast.expr], hidden: set[str]) -> ast.expr:
+    """A copy of the expression e - read inside a function whose local names are `hidden` - that can be read at module
+    level: every name of env (a parameter, a loop name over a constant table) is replaced by the closed expression it
+    stands for, every other local name by a name that denotes nothing (so that nothing is folded through it)."""
+    class _T(ast.NodeTransformer):
+        def visit_Name(self, n: ast.Name) -> ast.AST:
+            if isinstance(n.ctx, ast.Load):
+                if n.id in env:
+                    return _copy(env[n.id])
+                if n.id in hidden:
+                    return ast.copy_location(ast.Name(id="<local %s>" % n.id, ctx=ast.Load()), n)
+            return n
+
+    return _T().visit(_copy(e))  # type: ignore[return-value]
+
+
+def constant_tuple(repo: Repo, mod: Module, e: ast.expr) -> Optional[list[ast.expr]]:
+    """the entries of a tuple written in place, or of the tuple a name is bound to once at module level (closed expression)"""
+    if isinstance(e, ast.Name):
+        mc = module_constant(repo, mod, e.id)
+        if mc is None:
+            return None
+        e = mc[1]
+    return list(e.elts) if isinstance(e, ast.Tuple) else None
+
+
+def _callee_env(mod: Module, callee: ast.AST, call: ast.Call, env: dict[str, ast.expr], hidden: set[str]) -> Optional[dict[str, ast.expr]]:
+    """what the parameters of callee stand for at this call: the caller's argument expressions, closed; the callee's own
+    defaults as they are; nothing for a parameter that the callee binds again"""
+    b = bind_args(callee, call, is_bound_call(mod, call, callee))
+    if b is None:
+        return None
+    a = callee.args  # type: ignore[attr-defined]
+    defaults = [d for d in list(a.defaults) + list(a.kw_defaults) if d is not None]
+    stored = bound_in(callee)
+    return {p: (x if any(x is d for d in defaults) else close(x, env, hidden)) for p, x in b.items() if p not in stored}
+
+
+def reached_calls(mod: Module, stmts: list, env: dict[str, ast.expr], fn: ast.AST, depth: int = 4, _stack: tuple = ()) -> Iterator[tuple[ast.Call, dict[str, ast.expr], ast.AST]]:
+    """Every call that runs when the statements `stmts` of function fn run, as far as it lives in this module, with the
+    environment its arguments are to be read in: (call, env, function the call is written in).  A call of a function of
+    this module (resolve_callee: f(..), self.m(..), also as the context manager of a `with`) is followed into the callee,
+    whose parameters then stand for the caller's (closed) argument expressions: `self._start(tag)` inside a helper called
+    with "uri" writes what `startElementNS((NS, "uri"), ..)` writes."""
+    owner = class_of_function(mod, fn)
+    hidden = local_names(fn)
+    for s in stmts:
+        for c in ast.walk(s):
+            if not isinstance(c, ast.Call):
+                continue
+            yield c, env, fn
+            callee = resolve_callee(mod, c, owner, env)
+            if not isinstance(callee, (ast.FunctionDef, ast.AsyncFunctionDef)) or depth <= 0 or id(callee) in _stack:
+                continue
+            cenv = _callee_env(mod, callee, c, env, hidden)
+            if cenv is None:
+                continue
+            yield from reached_calls(mod, callee.body, cenv, callee, depth - 1, _stack + (id(callee),))
+
+
+class Arm:
+    """code that a function runs when isinstance(<term>, cls) holds: `body` (statements of function `fn`), to be read in
+    `env` (loop names over a constant table -> the row's entries, parameters -> the caller's arguments); `test`: the if"""
+
+    def __init__(self, cls: str, body: list, env: dict[str, ast.expr], fn: ast.AST, test: ast.If):
+        self.cls, self.body, self.env, self.fn, self.test = cls, body, env, fn, test
+
+
+def _terminates(body: list) -> bool:
+    return bool(body) and isinstance(body[-1], (ast.Raise, ast.Return, ast.Continue, ast.Break))
+
+
+def _following(mod: Module, st: ast.stmt) -> list:
+    """the statements that run after st in its block (for an `elif`, after the whole if statement it belongs to)"""
+    p = mod.parent.get(id(st))
+    while isinstance(p, ast.If) and len(p.orelse) == 1 and p.orelse[0] is st:
+        st, p = p, mod.parent.get(id(p))
+    for field in ("body", "orelse", "finalbody"):
+        blk = getattr(p, field, None)
+        if isinstance(blk, list):
+            for i, x in enumerate(blk):
+                if x is st:
+                    return blk[i + 1:]
+    return []
+
+
+def dispatch_arms(repo: Repo, mod: Module, fn: ast.AST, var: str, env: Optional[dict[str, ast.expr]] = None, follow: bool = False, depth: int = 3, _stack: tuple = ()) -> Iterator[Arm]:
+    """The arms of fn's dispatch on the class of the term held by `var`: for every class C, the code that runs when
+    isinstance(var, C) holds -
+    * `if isinstance(var, C):` / `if isinstance(var, (C, D)):` - the body;
+    * `if not isinstance(var, C): <raise / return / ...>` - what follows the if (or its else branch);
+    * `for K, F, .. in TABLE: if isinstance(var, K): ..` over a constant table (table_rows) - one arm per row, the loop
+      names standing for the row's entries;
+    * with follow: the arms of a function of this module that fn hands `var` to (`self._write_term(val)`), its parameter
+      standing for var."""
+    env = dict(env or {})
+    hidden = local_names(fn)
+    for n in ast.walk(fn):
+        if not isinstance(n, ast.If):
+            continue
+        t, neg = n.test, False
+        while isinstance(t, ast.UnaryOp) and isinstance(t.op, ast.Not):
+            t, neg = t.operand, not neg
+        if not (isinstance(t, ast.Call) and norm(t.func) == "isinstance" and len(t.args) == 2 and norm(t.args[0]) == var):
+            continue
+        if not neg:
+            body = list(n.body)
+        elif n.orelse:
+            body = list(n.orelse)
+        elif _terminates(n.body):
+            body = _following(mod, n)
+        else:
+            continue
+        k = t.args[1]
+        loop = None
+        if isinstance(k, ast.Name) and k.id in hidden and k.id not in env:
+            for p in mod.parents(n):  # the class is a loop variable: find the for statement that binds it
+                if isinstance(p, (ast.For, ast.AsyncFor)) and k.id in bound_in(p.target):
+                    loop = p
+                    break
+                if p is fn:
+                    break
+        if loop is None:
+            kc = close(k, env, hidden)
+            for c in (kc.elts if isinstance(kc, ast.Tuple) else [kc]):
+                yield Arm(norm(c), body, env, fn, n)
+            continue
+        rows = table_rows(repo, mod, loop.iter, hidden)
+        if rows is None:
+            raise AnalysisError("%s: the classes that `%s` is tested against come from `%s`, which is not a constant table" % (getattr(fn, "name", "?"), var, norm(loop.iter)[:60]))
+        tg = list(loop.target.elts) if isinstance(loop.target, (ast.Tuple, ast.List)) else [loop.target]
+        for row in rows:
+            if len(row) != len(tg) or not all(isinstance(x, ast.Name) for x in tg):
+                raise AnalysisError("%s: a row of the table `%s` does not match the loop target `%s`" % (getattr(fn, "name", "?"), norm(loop.iter)[:40], norm(loop.target)))
+            env2 = dict(env)
+            env2.update({x.id: r for x, r in zip(tg, row)})  # type: ignore[attr-defined]
+            for c in (env2[k.id].elts if isinstance(env2[k.id], ast.Tuple) else [env2[k.id]]):  # type: ignore[attr-defined]
+                yield Arm(norm(c), body, env2, fn, n)
+    if not follow or depth <= 0 or var in bound_in(fn):
+        return
+    owner = class_of_function(mod, fn)
+    for c in own_nodes(fn):
+        if not isinstance(c, ast.Call):
+            continue
+        callee = resolve_callee(mod, c, owner, env)
+        if not isinstance(callee, (ast.FunctionDef, ast.AsyncFunctionDef)) or id(callee) in _stack or callee is fn:
+            continue
+        cenv = _callee_env(mod, callee, c, env, hidden)
+        b = bind_args(callee, c, is_bound_call(mod, c, callee))
+        if cenv is None or b is None:
+            continue
+        for p, x in b.items():
+            if isinstance(x, ast.Name) and x.id == var and p not in bound_in(callee):
+                yield from dispatch_arms(repo, mod, callee, p, cenv, follow, depth - 1, _stack + (id(fn),))
+
+
+def arm_code(mod: Module, arm: Arm) -> list[ast.AST]:
+    """the arm and the functions of the module it calls (reached_code), the arm's table names standing for their entries"""
+    return reached_code(mod, list(arm.body), class_of_function(mod, arm.fn), arm.env)
